@@ -860,4 +860,171 @@ theorem fromHeader_toHeader_built (ops : List Op) (hops : ∀ op ∈ ops, match 
     fromHeader (toHeader st) = .ok st :=
   fromHeader_toHeader st ⟨built_entries ops hops st hst, hn, hsz⟩
 
+/-! ### D18 — the excluded point, in the model: trailing white space of the metadata does not survive -/
+
+/-- `k=v;m␠` is written as `k=v;m␠` and parsed back as `k=v;m`: the hypothesis "metadata does not end in white space"
+    of `fromHeader_toHeader` cannot be dropped (the W3C grammar allows optional white space around list members, so
+    the trimming is conformant; it only is not "verbatim") -/
+theorem fromHeader_toHeader_trailing_space_witness :
+    toHeader [([107], [118, 59, 109, 32])] = [107, 61, 118, 59, 109, 32] ∧
+    fromHeader (toHeader [([107], [118, 59, 109, 32])]) = .ok [([107], [118, 59, 109])] ∧
+    ¬ RoundTrippableEntry ([107], [118, 59, 109, 32]) := by decide +kernel
+
+/-- likewise an unescaped `,` after `;` splits the member (outside the property's quantifier) -/
+theorem fromHeader_toHeader_comma_in_metadata_witness :
+    fromHeader (toHeader [([107], [118, 59, 109, 44, 120])]) = .ok [([107], [118, 59, 109])] ∧
+    ¬ RoundTrippableEntry ([107], [118, 59, 109, 44, 120]) := by decide +kernel
+
+/-! ## The propagators -/
+open Otel.Propagation
+
+theorem toHeader_eq_nil_iff (es : Entries) : toHeader es = [] ↔ es = [] := by
+  constructor
+  · intro h
+    cases es with
+    | nil => rfl
+    | cons e t =>
+      exfalso
+      have hm : memberOf e ≠ [] := by unfold memberOf; simp
+      unfold toHeader at h
+      cases t with
+      | nil => simp [joinMembers] at h; exact hm h
+      | cons e' t' =>
+        simp only [List.map_cons] at h
+        rw [joinMembers_cons2] at h
+        simp at h
+  · intro h; subst h; rfl
+
+/-- `BaggagePropagator::Extract`, exactly: the parsed baggage is installed iff it has at least one entry -/
+theorem baggage_extract_eq (car : Carrier) (ctx : PCtx) :
+    Propagation.baggage.extract car (.ok ctx) =
+      .ok (if parsed (car.get [98, 97, 103, 103, 97, 103, 101]) = [] then ctx
+           else { ctx with baggage := some (parsed (car.get [98, 97, 103, 103, 97, 103, 101])) }) := by
+  obtain ⟨_, _, _, _, _, _, _, _, _, _, _, _, _, _, g15⟩ := gen_baggage
+  unfold Propagation.baggage
+  simp only [Res.bind_ok, g15]
+  rw [fromHeader_eq, Res.bind_ok]
+  unfold parsed
+  generalize (if (car.get [98, 97, 103, 103, 97, 103, 101]).length > 8192 then ([] : Entries) else _) = es
+  by_cases he : es = []
+  · subst he; simp [toHeader, joinMembers]
+  · have : ¬ (toHeader es).isEmpty = true := by
+      intro h
+      apply he
+      apply (toHeader_eq_nil_iff es).1
+      simpa using h
+    rw [if_neg this, if_neg he]
+
+/-- **Extraction leaves the context untouched when nothing valid remains**: whatever bytes the `baggage` header holds
+    (absent, junk, only invalid or oversize members, an over-long header), if no valid member remains the caller's
+    context is returned as it is -/
+theorem extract_empty_leaves_context (car : Carrier) (ctx : PCtx)
+    (h : fromHeader (car.get [98, 97, 103, 103, 97, 103, 101]) = .ok []) :
+    Propagation.baggage.extract car (.ok ctx) = .ok ctx := by
+  rw [baggage_extract_eq]
+  rw [fromHeader_eq] at h
+  simp only [Res.ok.injEq] at h
+  unfold parsed
+  rw [h, if_pos rfl]
+
+/-- … and otherwise only the baggage slot changes (the span and every other binding stay) -/
+theorem extract_installs_parsed (car : Carrier) (ctx : PCtx) (es : Entries) (hne : es ≠ [])
+    (h : fromHeader (car.get [98, 97, 103, 103, 97, 103, 101]) = .ok es) :
+    Propagation.baggage.extract car (.ok ctx) = .ok { ctx with baggage := some es } := by
+  rw [baggage_extract_eq]
+  rw [fromHeader_eq] at h
+  simp only [Res.ok.injEq] at h
+  unfold parsed
+  rw [h, if_neg hne]
+
+/-- the propagator writes the header of the context's baggage, and only when there is something to write -/
+theorem baggage_inject_eq (car : Carrier) (ctx : PCtx) :
+    Propagation.baggage.inject car (.ok ctx) =
+      if ctx.baggage.getD [] = [] then car else car.set [98, 97, 103, 103, 97, 103, 101] (toHeader (ctx.baggage.getD [])) := by
+  obtain ⟨_, _, _, _, _, _, _, _, _, _, _, _, _, _, g15⟩ := gen_baggage
+  unfold Propagation.baggage
+  simp only [g15]
+  by_cases he : ctx.baggage.getD [] = []
+  · rw [he]; simp [toHeader, joinMembers]
+  · have : ¬ (toHeader (ctx.baggage.getD [])).isEmpty = true := by
+      intro h
+      apply he
+      apply (toHeader_eq_nil_iff _).1
+      simpa using h
+    rw [if_neg this, if_neg he]
+
+/-- **propagator round trip**: a context whose baggage is `RoundTrippable` and non-empty is injected as a `baggage`
+    header from which extraction into any context installs exactly that baggage -/
+theorem baggage_propagator_roundtrip (ctx ctx' : PCtx) (es : Entries) (hb : ctx.baggage = some es) (hne : es ≠ [])
+    (hr : RoundTrippable es) :
+    Propagation.baggage.extract (Propagation.baggage.inject [] (.ok ctx)) (.ok ctx') = .ok { ctx' with baggage := some es } := by
+  rw [baggage_inject_eq]
+  have : ctx.baggage.getD [] = es := by rw [hb]; rfl
+  rw [this, if_neg hne]
+  apply extract_installs_parsed _ _ _ hne
+  have : Carrier.get (Carrier.set [] [98, 97, 103, 103, 97, 103, 101] (toHeader es)) [98, 97, 103, 103, 97, 103, 101] = toHeader es := by
+    simp [Carrier.get, Carrier.set]
+  rw [this]
+  exact fromHeader_toHeader es hr
+
+/-! ### Composite propagator -/
+
+/-- **Inject applies every configured propagator, in order, to the same context** -/
+theorem composite_inject_eq_foldl {Ctx Car : Type} (empty : Ctx) (ps : List (Propagator Ctx Car)) (car : Car) (ctx : Ctx) :
+    (composite empty ps).inject car ctx = ps.foldl (fun c p => p.inject c ctx) car := by
+  show compositeInjectLoop ctx ps car = _
+  induction ps generalizing car with
+  | nil => rfl
+  | cons p t ih => simp only [compositeInjectLoop, List.foldl_cons]; exact ih _
+
+theorem compositeExtractLoop_not_first {Ctx Car : Type} (car : Car) (ctx : Ctx) :
+    ∀ (ps : List (Propagator Ctx Car)) (tmp : Ctx),
+      compositeExtractLoop car ctx ps false tmp = ps.foldl (fun c p => p.extract car c) tmp
+  | [], _ => rfl
+  | p :: t, tmp => by
+    simp only [compositeExtractLoop, List.foldl_cons]
+    exact compositeExtractLoop_not_first car ctx t _
+
+/-- **Extract threads the context through all configured propagators in order**: the first one extracts into the
+    caller's context, each later one into the result of its predecessor (the `first` flag and the default-constructed
+    `tmp_context` of the C++ never show) -/
+theorem composite_extract_eq_foldl {Ctx Car : Type} (empty : Ctx) (ps : List (Propagator Ctx Car)) (car : Car) (ctx : Ctx) :
+    (composite empty ps).extract car ctx = ps.foldl (fun c p => p.extract car c) ctx := by
+  show (if ps.length ≠ 0 then compositeExtractLoop car ctx ps true empty else ctx) = _
+  cases ps with
+  | nil => rfl
+  | cons p t =>
+    have hne : (p :: t).length ≠ 0 := by simp
+    rw [if_pos hne]
+    simp only [compositeExtractLoop, if_true, List.foldl_cons]
+    exact compositeExtractLoop_not_first car ctx t _
+
+/-- **the empty composite is the identity**: nothing is written, the caller's context comes back -/
+theorem composite_empty_identity {Ctx Car : Type} (empty : Ctx) (car : Car) (ctx : Ctx) :
+    (composite empty ([] : List (Propagator Ctx Car))).inject car ctx = car ∧
+    (composite empty ([] : List (Propagator Ctx Car))).extract car ctx = ctx := ⟨rfl, rfl⟩
+
+/-- a composite of composites is the composite of the concatenation (both directions are folds) -/
+theorem composite_append {Ctx Car : Type} (empty : Ctx) (ps qs : List (Propagator Ctx Car)) (car : Car) (ctx : Ctx) :
+    (composite empty (ps ++ qs)).inject car ctx = (composite empty qs).inject ((composite empty ps).inject car ctx) ctx ∧
+    (composite empty (ps ++ qs)).extract car ctx = (composite empty qs).extract car ((composite empty ps).extract car ctx) := by
+  simp only [composite_inject_eq_foldl, composite_extract_eq_foldl, List.foldl_append, and_self]
+
+/-! ## Non-vacuity -/
+
+/-- `userId=alice`, `server node=A=1,b%+;x` (needs `+`, `%3D`, `%2C`, `%25`, `%2B`, `%3B`…), `k=v;prop=1; p2` (metadata) -/
+def exampleBaggage : Entries :=
+  [([117,115,101,114,73,100], [97,108,105,99,101]),
+   ([115,101,114,118,101,114,32,110,111,100,101], [65,61,49,44,98,37,43]),
+   ([107], [118,59,112,114,111,112,61,49,59,32,112,50])]
+
+example : RoundTrippable exampleBaggage := by decide +kernel
+example : fromHeader (toHeader exampleBaggage) = .ok exampleBaggage := by decide +kernel
+example : RoundTrippableEntry ([32, 61, 44, 37, 43, 59], [126, 32, 59]) := by decide +kernel
+example : (run [.set 0 [97] [49], .set 1 [98] [50], .set 2 [97] [51], .delete 3 [98]]) =
+    [[], [([97], [49])], [([98], [50]), ([97], [49])], [([97], [51]), ([98], [50])], [([97], [51])]] := by decide +kernel
+-- truncated and malformed escapes are refused without a fault: "%4", "%", "%zz", "a%4"
+example : urlDecode [37, 52] = .ok none ∧ urlDecode [37] = .ok none ∧ urlDecode [37, 122, 122] = .ok none ∧
+    urlDecode [97, 37, 52] = .ok none ∧ urlDecode [37, 52, 49] = .ok (some [65]) := by decide +kernel
+
 end Otel.C15
